@@ -63,6 +63,22 @@ class Inode:
         return "<%s %r>" % (self.kind, self.sb if self.kind == "file" else (self.target if self.kind == "symlink" else list(self.children)))
 
 
+def inode_mtime(ino):
+    """Modification time of an inode: an unconstrained instant per content change made through the modelled
+    system calls.  Changes made by the *environment* of a scenario (damage to a file in place) deliberately
+    keep it: bit rot and hostile edits do not announce themselves."""
+    t = getattr(ino, "mtime", None)
+    if t is None:
+        w = sb.CURRENT_WORLD[0]
+        t = ino.mtime = w.fresh_bv("mtime", 64, register=False) if w is not None else 0
+    return t
+
+
+def touch(ino):
+    w = sb.CURRENT_WORLD[0]
+    ino.mtime = w.fresh_bv("mtime", 64, register=False) if w is not None else 0
+
+
 def comp_key(c):
     return sb.concretise_atoms(c).key()
 
@@ -364,16 +380,19 @@ class FaultController:
     """Exactly one filesystem operation of the armed API call fails with an errno class."""
     KINDS = ["Other", "StorageFull", "PermissionDenied", "Uncategorized"]      # EIO, ENOSPC, EACCES, EMFILE
 
-    def __init__(self, kinds=None, short_write=True):
+    def __init__(self, kinds=None, short_write=True, actions=None):
         self.armed = False
         self.fired = None
         self.kinds = kinds or self.KINDS
         self.short_write = short_write
+        self.actions = actions          # restrict the failing call to these action kinds (None: any)
 
     def inject(self, env, rec):
         if not self.armed or self.fired:
             return None
         if rec["kind"] in ("lstat", "stat") and rec.get("via") in ("reflink-diagnose",):
+            return None
+        if self.actions is not None and rec["kind"] not in self.actions:
             return None
         if env.w.choose(2, "fault@%s" % rec["kind"]) == 0:
             return None
@@ -585,6 +604,7 @@ def op_write(I, f, data):
 
 def do_write(I, f, data):
     ino = f.inode
+    touch(ino)
     n = data.length()
     total = ino.sb.length()
     if f.append:
@@ -809,6 +829,7 @@ class MetaObj:
             ino.ino_no = 1000 + Inode._n
         self.ino_id = ino.ino_no
         self.nlink = ino.nlink
+        self.mtime = inode_mtime(ino)
 
 
 # ---------------------------------------------------------------------------
@@ -905,6 +926,8 @@ def _fs_read_to_string(I, a, d):
     def go():
         f = op_open(I, _p(a[0]), read=True)
         data = op_read_all(I, f)
+        if not utf8_check(I, data):
+            raise FsErr("InvalidData")
         return mk_string(data)
     return wrap(I, go)
 
